@@ -4,7 +4,7 @@
 # usage: tools_seeded_scratch.sh <seeded-root> <tier> <ID>:<check>[,<check>...] [<ID>:<checks> ...]
 set -u
 ROOTDIR="$1"; TIER="$2"; shift 2
-SX=/tmp/vf-scratch
+SX=${VF_SCRATCH_DIR:-/tmp/vf-scratch}
 rm -rf "$SX/verif"; mkdir -p "$SX"
 git -C /repo worktree remove --force "$SX/repo" 2>/dev/null
 git -C /repo worktree add --detach "$SX/repo" HEAD >/dev/null 2>&1 || { echo "cannot create worktree"; exit 2; }
